@@ -59,6 +59,33 @@ impl ArrayImpl {
     }
 }
 
+/// Remainder as SQL defines it: `MIN % -1` is 0 (the quotient overflows, the remainder does
+/// not), while `checked_rem` of the integer types reports it as an overflow.
+trait SqlRem: Sized {
+    fn sql_rem(self, rhs: Self) -> Option<Self>;
+}
+
+macro_rules! impl_sql_rem {
+    ($($t:ty),*) => {
+        $(impl SqlRem for $t {
+            fn sql_rem(self, rhs: Self) -> Option<Self> {
+                if rhs == -1 {
+                    Some(0)
+                } else {
+                    self.checked_rem(rhs)
+                }
+            }
+        })*
+    };
+}
+impl_sql_rem!(i16, i32, i64);
+
+impl SqlRem for Decimal {
+    fn sql_rem(self, rhs: Self) -> Option<Self> {
+        self.checked_rem(rhs)
+    }
+}
+
 /// A macro to implement arithmetic operations.
 ///
 /// Integer and decimal arithmetic is checked: a result that does not fit the result type is an
@@ -169,7 +196,7 @@ impl ArrayImpl {
     arith!(sub, -, checked_sub);
     arith!(mul, *, checked_mul);
     arith!(unchecked_div, /, checked_div);
-    arith!(unchecked_rem, %, checked_rem);
+    arith!(unchecked_rem, %, sql_rem);
     cmp!(eq, ==);
     cmp!(ne, !=);
     cmp!(gt,  >);
